@@ -203,3 +203,108 @@ func (g *c12) defaultSequences() {
 			Key: coq, NonTrivial: true, Tags: []string{"default-name", "default-name:sequence"}})
 	}
 }
+
+// sessStream delivers a scripted series of request messages on ONE server stream.
+type sessStream struct {
+	grpc.ServerStream
+	plan []sessMsg
+	i    int
+}
+type sessMsg struct {
+	content proto.Message // merged into the handler's message when RecvMsg succeeds
+	fail    bool
+}
+
+func (s *sessStream) Context() context.Context { return context.Background() }
+func (s *sessStream) RecvMsg(m any) error {
+	p := s.plan[s.i]
+	s.i++
+	if p.fail {
+		return errors.New("recv failed")
+	}
+	proto.Merge(m.(proto.Message), p.content)
+	return nil
+}
+
+// streamSessions: client-streaming / bidi handlers call RecvMsg several times on the stream the
+// interceptor wrapped; every received message, not just the first, must get the default name.
+func (g *c12) streamSessions() {
+	types := collidingTypes()
+	types = append(types, (&traits.GetOnOffRequest{}).ProtoReflect().Descriptor(), (&traits.ListBookingsRequest{}).ProtoReflect().Descriptor())
+	newMsg := func(d protoreflect.MessageDescriptor) protoreflect.Message {
+		if mt, err := protoregistry.GlobalTypes.FindMessageByName(d.FullName()); err == nil && mt.Descriptor() == d {
+			return mt.New()
+		}
+		return dynamicpb.NewMessage(d)
+	}
+	nsess := 80
+	if g.tier == "thorough" {
+		nsess = 1200
+	}
+	for s := 0; s < nsess; s++ {
+		dflt := []string{"default-device", "srv/1", "d"}[g.r.Intn(3)]
+		n := g.r.Range(2, 5)
+		sameType := g.r.Chance(50) // a real client stream carries one request type; mixed types stress the wrapper further
+		d0 := types[g.r.Intn(len(types))]
+		var plan []sessMsg
+		var descs []protoreflect.MessageDescriptor
+		for i := 0; i < n; i++ {
+			d := d0
+			if !sameType {
+				d = types[g.r.Intn(len(types))]
+			}
+			m := newMsg(d)
+			g.fill(m, 1)
+			for j := 0; j < d.Fields().Len(); j++ {
+				fd := d.Fields().Get(j)
+				if fd.Kind() == protoreflect.StringKind && !fd.IsList() {
+					if g.r.Chance(60) {
+						m.Clear(fd)
+					} else {
+						m.Set(fd, protoreflect.ValueOfString(g.str()+"v"))
+					}
+				}
+			}
+			plan = append(plan, sessMsg{content: m.Interface(), fail: i > 0 && g.r.Chance(15)})
+			descs = append(descs, d)
+		}
+		ss := &sessStream{plan: plan}
+		var rs, obs []string
+		var jmsgs []any
+		herr := name.IfAbsentStreamInterceptor(dflt)(nil, ss, &grpc.StreamServerInfo{FullMethod: "/x/Y", IsClientStream: true},
+			func(srv any, st grpc.ServerStream) error {
+				for i, p := range plan {
+					target := newMsg(descs[i])
+					if p.fail {
+						// what the handler's message holds is its own business when RecvMsg fails: give it the
+						// planned content (possibly an empty name) to see that it is left alone
+						proto.Merge(target.Interface(), p.content)
+					}
+					before, jb := render(p.content.ProtoReflect())
+					err := func() (err error) {
+						defer func() {
+							if r := recover(); r != nil {
+								g.direct("panic:default-name-stream-session", fmt.Sprintf("RecvMsg panicked: %v", r), jb)
+								err = errors.New("panic")
+							}
+						}()
+						return st.RecvMsg(target.Interface())
+					}()
+					if (err != nil) != p.fail {
+						g.direct("interceptor-not-transparent:stream-session", "the wrapped stream changed the RecvMsg error", jb)
+					}
+					after, ja := render(target)
+					rs = append(rs, "("+vcoq.Bool(!p.fail)+", "+coqType(descs[i])+", "+before+")")
+					obs = append(obs, after)
+					jmsgs = append(jmsgs, map[string]any{"index": i, "type": string(descs[i].FullName()), "recv_ok": !p.fail, "sent": jb, "handler_saw": ja})
+				}
+				return nil
+			})
+		if herr != nil {
+			g.direct("interceptor-not-transparent:stream-session", "stream interceptor changed the handler's result", nil)
+		}
+		coq := vcoq.App("KStreamSession", coqStr(dflt), vcoq.List(rs), vcoq.List(obs))
+		g.o.Add(vcoq.Case{Coq: coq, JSON: map[string]any{"kind": "default-name-stream-session", "default": dflt, "messages": jmsgs},
+			Key: coq, NonTrivial: true, Tags: []string{"default-name", "default-name:stream-session"}})
+	}
+}
